@@ -412,7 +412,10 @@ class Parser:
                 code_gen.add_instruction(OpCode.PUSHQ, value)
             else:
                 code_gen.push(value)
-        elif value is not dest:
+        elif move_inst is OpCode.MOVEQ or value is not dest:
+            # Only moving a variable or register onto itself can be left
+            # out: a literal that happens to equal the name of the
+            # destination ('assign x "x"') is still an assignment.
             code_gen.add_instruction(move_inst, value, dest)
 
         return self.next_token()
